@@ -60,6 +60,60 @@ theorem guardedFrom_sound (ℓ v : Nat) : ∀ (es : List Ev) (σ0 : St), guarded
 theorem guarded_of_check {ℓ v : Nat} {es : List Ev} (h : guardedFrom ℓ v St.init es = true) : Guarded ℓ v es :=
   guardedFrom_sound ℓ v es St.init h
 
+def holdsModeB (σ : St) (t : Nat) (p : Nat × Bool) : Bool :=
+  if p.2 then (σ p.1).writer == some t else ((σ p.1).writer == some t || (σ p.1).readers.contains t)
+
+theorem holdsModeB_sound {σ : St} {t : Nat} {p : Nat × Bool} (h : holdsModeB σ t p = true) :
+    if p.2 then holdsW σ t p.1 else holdsAny σ t p.1 := by
+  unfold holdsModeB at h
+  unfold holdsAny holdsW holdsR
+  cases hp : p.2 with
+  | true => rw [hp] at h; simpa using h
+  | false => rw [hp] at h; simpa using h
+
+/-- walk the execution and match every access against the fact table -/
+def conformsFrom (fs : List Fact) : St → List Ev → Bool
+  | _, [] => true
+  | σ, e :: es =>
+    (match e with
+      | .acc t v w => fs.any fun f => Nat.beq f.var v && (f.write == w) && f.locks.all (holdsModeB σ t)
+      | _ => true) &&
+    (match step σ e with
+      | none => true
+      | some σ' => conformsFrom fs σ' es)
+
+theorem conformsFrom_sound (fs : List Fact) : ∀ (es : List Ev) (σ0 : St), conformsFrom fs σ0 es = true →
+    ∀ (pre post : List Ev) (t v : Nat) (w : Bool) (σ : St),
+      es = pre ++ Ev.acc t v w :: post → run σ0 pre = some σ →
+      ∃ f ∈ fs, f.var = v ∧ f.write = w ∧ ∀ p ∈ f.locks, if p.2 then holdsW σ t p.1 else holdsAny σ t p.1 := by
+  intro es
+  induction es with
+  | nil => intro σ0 _ pre post t v w σ he _; simp at he
+  | cons e es ih =>
+    intro σ0 hg pre post t v w σ he hr
+    simp only [conformsFrom, Bool.and_eq_true] at hg
+    cases pre with
+    | nil =>
+      simp only [List.nil_append, List.cons.injEq] at he
+      simp only [run, Option.some.injEq] at hr
+      subst hr
+      rw [he.1] at hg
+      have h1 := hg.1
+      simp only [List.any_eq_true, Bool.and_eq_true, beq_iff_eq, List.all_eq_true] at h1
+      obtain ⟨f, hf, ⟨hv, hw⟩, hl⟩ := h1
+      exact ⟨f, hf, Nat.eq_of_beq_eq_true hv, hw, fun p hp => holdsModeB_sound (hl p hp)⟩
+    | cons x pre' =>
+      simp only [List.cons_append, List.cons.injEq] at he
+      obtain ⟨σ1, h1, h2⟩ := run_cons hr
+      have he1 : e = x := he.1
+      subst he1
+      have hg2 := hg.2
+      rw [h1] at hg2
+      exact ih σ1 hg2 pre' post t v w σ he.2 h2
+
+theorem conforms_of_check {fs : List Fact} {es : List Ev} (h : conformsFrom fs St.init es = true) : Conforms fs es :=
+  conformsFrom_sound fs es St.init h
+
 theorem HB.lt {es : List Ev} {i j : Nat} (h : HB es i j) : i < j := by
   induction h with
   | po h _ _ _ => exact h
